@@ -1,5 +1,6 @@
 import PMH.Model.MaxTracker
 import PMH.Model.FYShuffle
+import PMH.Model.Hashers
 /-!
 # Model of `ProbOrdMinHash2` / `OrdMinHashStore` (`src/probminhasher/probordminhash2.rs`)
 
@@ -134,6 +135,14 @@ def hashSet (o : OrdOps F G) (top : F) (s : OrdMH F) (hashes : List UInt64) : Ex
     let blocks := (List.range s.m).map (fun b => sortBlock ((List.range s.l).map (fun j => s.indices.getD (b * s.l + j) 0)))
     if blocks.any (fun b => b.any (fun ix => ix ≥ hashes.length)) then .error (.assertFail "ordminhash nb_bad_indices == 0")
     else .ok { s with indices := blocks.flatten.toArray }
+
+/-- `create_signature`, the combining step: position `b` of the signature is the WyHash (seed `wyseed`) of the element
+hashes at the (sorted) selected indices of block `b`, written one `write_u64` each (`Hashers.wyCombine`).
+`s` is a state returned by `hashSet`, whose index blocks are already sorted. -/
+def signature (s : OrdMH F) (hashes : List UInt64) (wyseed : UInt64) : List UInt64 :=
+  let hs := hashes.toArray
+  (List.range s.m).map (fun b =>
+    Hashers.wyCombine wyseed ((List.range s.l).map (fun j => hs.getD (s.indices.getD (b * s.l + j) 0) 0)))
 
 end OrdMH
 end PMH
